@@ -11,11 +11,11 @@ HEAD = """module m
     integer :: cnt
   end type fld
 contains
-  subroutine s(a, b, c, a2, b2, idx, f, n, m2, lo, hi, t, r, k{extra_args})
-    integer, intent(in) :: n, m2, lo, hi
-    real(kind=wp), dimension(0:n+3), intent(inout) :: a, b, c
-    real(kind=wp), dimension(0:n+3,0:m2+3), intent(inout) :: a2, b2
-    integer, dimension(0:n+3), intent(inout) :: idx
+  subroutine s(a, b, c, a2, b2, idx, f, n, m2, np3, mp3, lo, hi, t, r, k{extra_args})
+    integer, intent(in) :: n, m2, np3, mp3, lo, hi
+    real(kind=wp), dimension(0:np3), intent(inout) :: a, b, c
+    real(kind=wp), dimension(0:np3,0:mp3), intent(inout) :: a2, b2
+    integer, dimension(0:np3), intent(inout) :: idx
     type(fld), intent(inout) :: f
     real(kind=wp), intent(inout) :: t, r
     integer, intent(inout) :: k{extra_decl}
